@@ -59,11 +59,13 @@ PROPS = {
     "C13": {"level": "exploration", "assumptions": MP_ASSUME,
             "parts": [{"engine": "mp", "test": "TestVF_C13_Proc", "quick": (4, 750), "thorough": (16, 20000)},
                       {"engine": "e2e", "test": "TestVF_C13_Parser", "quick": (4, 2500), "thorough": (16, 50000)},
-                      {"engine": "e2e", "test": "TestVF_C13_Socket", "quick": (4, 25), "thorough": (16, 400), "shrinktime": "10s"}]},
+                      {"engine": "e2e", "test": "TestVF_C13_Socket", "quick": (4, 25), "thorough": (16, 400), "shrinktime": "10s"},
+                      {"engine": "e2e", "test": "FuzzVF_C13_Parser", "kind": "fuzz", "tiers": ["thorough"], "thorough_secs": 90}]},
     "C14": {"level": "exploration", "assumptions": BASE_ASSUME + ["camera descriptions are encoded with the same yaml.v1 Marshal call as cmd/leptond's sendCameraSpecs (which itself needs camera hardware); strings are single-line valid UTF-8"],
             "parts": [{"engine": "hdr", "test": "TestVF_C14_Header", "quick": (4, 2500), "thorough": (16, 50000)},
                       {"engine": "e2e", "test": "TestVF_C14_Socket", "quick": (4, 25), "thorough": (16, 400), "shrinktime": "10s"},
-                      {"engine": "lpd", "test": "TestVF_C14_Leptond", "kind": "plain"}]},
+                      {"engine": "lpd", "test": "TestVF_C14_Leptond", "kind": "plain"},
+                      {"engine": "hdr", "test": "FuzzVF_C14_Header", "kind": "fuzz", "tiers": ["thorough"], "thorough_secs": 90}]},
     "C15": {"level": "exploration", "assumptions": BASE_ASSUME + ["background and threshold are read in-package from the detector; threshold tolerance +-1 for float accumulation"],
             "parts": [{"engine": "mp", "test": "TestVF_C15", "quick": (4, 1500), "thorough": (16, 40000)}]},
     "C10": {"level": "fault_enumeration", "assumptions": BASE_ASSUME + ["process kill only (as the property says); a kill on entering a file-system system call of the handleConn thread leaves exactly the on-disk state a concurrent observer could see at that instant", "strace (ptrace) is available; crash points are numbered on a reference run of the same stream and verified per run (misaligned runs are skipped and counted)", "the constant-recordings sub-directory is judged only by 'every .cptv decodes'; the start-up clean-up covers the top-level output directory"],
@@ -85,6 +87,7 @@ PROPS = {
         "parts": [
             {"engine": "mp", "test": "TestVF_C19", "quick": (2, 10000), "thorough": (16, 200000)},
             {"engine": "mp", "test": "TestVF_C19_Exhaustive", "kind": "plain", "tiers": ["thorough"]},
+            {"engine": "mp", "test": "FuzzVF_C19", "kind": "fuzz", "tiers": ["thorough"], "thorough_secs": 60},
         ],
     },
 }
